@@ -305,6 +305,39 @@ theorem save_structure_bytes_as_in_source (F : FloatOps α) :
     save F (.map (.cons .obj .obj .nil)) ++ [0] = NV.Gen.C16.saveMappingLits := by
   refine ⟨?_, ?_, ?_⟩ <;> simp [save, saveElems, savePairs] <;> decide
 
+/-! ### what the restore functions dispatch on -/
+
+/-- the model's dispatch of restore_array / restore_class (`rdElems`) accepts exactly these first characters ... -/
+theorem elem_dispatch_spec (c : Nat) : c ∈ [34, 44, 40, 45, 48, 49, 50, 51, 52, 53, 54, 55, 56, 57] ↔
+    (c = 34 ∨ c = 44 ∨ c = 40 ∨ numStart c = true) := by
+  simp [numStart, isDigit]; omega
+
+/-- ... of a key / of a value in restore_mapping (`rdMap`) ... -/
+theorem key_dispatch_spec (c : Nat) : c ∈ [34, 40, 58, 93, 45, 48, 49, 50, 51, 52, 53, 54, 55, 56, 57] ↔
+    (c = 93 ∨ c = 34 ∨ c = 40 ∨ c = 58 ∨ numStart c = true) := by
+  simp [numStart, isDigit]; omega
+
+theorem value_dispatch_spec (c : Nat) : c ∈ [34, 40, 45, 48, 49, 50, 51, 52, 53, 54, 55, 56, 57, 44] ↔
+    (c = 34 ∨ c = 40 ∨ c = 44 ∨ numStart c = true) := by
+  simp [numStart, isDigit]; omega
+
+/-- ... of restore_svalue / safe_restore_svalue (`restoreSvalue`; everything else is the value 0) -/
+theorem svalue_dispatch_spec (c : Nat) : c ∈ [34, 40, 45, 48, 49, 50, 51, 52, 53, 54, 55, 56, 57] ↔
+    (c = 34 ∨ c = 40 ∨ numStart c = true) := by
+  simp [numStart, isDigit]; omega
+
+/-- and these ARE the `case 'x':` labels of the switches in the source (REGENERATED, in source order), the nested
+containers being opened by `[`, `{`, `/` behind the `(` in all five functions -/
+theorem restore_dispatch_as_in_source :
+    NV.Gen.C16.restoreArrayCases = [34, 44, 40, 45, 48, 49, 50, 51, 52, 53, 54, 55, 56, 57] ∧
+    NV.Gen.C16.restoreClassCases = [34, 44, 40, 45, 48, 49, 50, 51, 52, 53, 54, 55, 56, 57] ∧
+    NV.Gen.C16.restoreMappingKeyCases = [34, 40, 58, 93, 45, 48, 49, 50, 51, 52, 53, 54, 55, 56, 57] ∧
+    NV.Gen.C16.restoreMappingValueCases = [34, 40, 45, 48, 49, 50, 51, 52, 53, 54, 55, 56, 57, 44] ∧
+    NV.Gen.C16.restoreSvalueCases = [34, 40, 45, 48, 49, 50, 51, 52, 53, 54, 55, 56, 57] ∧
+    NV.Gen.C16.safeRestoreSvalueCases = [34, 40, 45, 48, 49, 50, 51, 52, 53, 54, 55, 56, 57] ∧
+    NV.Gen.C16.restoreOpeners.all (fun l => l.all (fun b => b = 91 || b = 123 || b = 47) && [91, 123, 47].all l.contains) = true := by
+  decide
+
 /-! ## the hash table restore_mapping fills (Hash.lean): every restored pair can be looked up -/
 
 /-- **One pair of restore_mapping** (bucket `hash & mask`, duplicate test in the chain, `--unfilled`, growMap in the
